@@ -3,7 +3,7 @@ import json
 from common import *
 import impl, l0
 
-THMS = ["C19_insert_pairing", "C19_row_recoverable", "C19_rows_in_order", "C19_truncation_refuted"]
+THMS = ["C19_insert_pairing", "C19_row_recoverable", "C19_rows_in_order", "C19_truncation_refuted", "C19_bare_column_name_refuted"]
 HEADER = ("From Coq Require Import List ZArith String Bool.\nFrom MoSql Require Import Base.Json Model.Ddl.\nImport ListNotations.\nOpen Scope string_scope. Open Scope list_scope.\n")
 
 TYPES = [("int", {"int": {}}), ("integer", {"integer": {}}), ("bigint", {"bigint": {}}), ("smallint", {"smallint": {}}), ("tinyint", {"tinyint": {}}), ("mediumint", {"mediumint": {}}),
